@@ -152,11 +152,11 @@ def r2(ctx):
     ctx.floor(R, n, 6)
 
 
-def r4(ctx):
-    R = 'R20.4'
-    ctx.rule(R, 'dist_in_2r / too_far: centre difference of the two boxes against the sum of BOTH bounding radii')
+def r4(ctx, R='R20.4', names=('dist_in_2r', 'too_far')):
+    if R == 'R20.4':
+        ctx.rule(R, 'dist_in_2r / too_far: centre difference of the two boxes against the sum of BOTH bounding radii')
     n = 0
-    for name in ('dist_in_2r', 'too_far'):
+    for name in names:
         b = ctx.anchor(R, 'utils::bbox::Universal2DBox::' + name)
         if b is None:
             continue
@@ -185,7 +185,9 @@ def r4(ctx):
             ok = len(mine) == 1 and {a.strip().root for a in mine[0].args} == {('param', 1), ('param', 2)}
             ctx.check(ok, R, b, '%s:centre-difference-%s' % (name, coord), [repr(m) for m in mine],
                       '%s does not use the difference of the two boxes\' %s' % (name, coord))
-    ctx.floor(R, n, 6)
+    if R == 'R20.4':
+        ctx.floor(R, n, 6)
+    return n
 
 
 def r6(ctx):
